@@ -376,7 +376,7 @@ def obligations(tier, seed):
             bounds="code-quoted defaults from pool %r; prose symbolic len <= %d" % (CODE_POOL, pl),
             timeout=150 if tier == "quick" else 600,
             path_timeout=60,
-            kf=[("KF-C17-codedot", "i == 2")],
+
         )
     )
     HA = "a to:."
